@@ -510,6 +510,8 @@ class LoopMixin:
 
     # ------------------------------------------------------------------ comprehensions
     def comprehension(self, n, st, kind):
+        if kind == "dict" and len(n.generators) == 2:
+            return self.merged_atts_comprehension(n, st)
         if len(n.generators) != 1 or n.generators[0].is_async:
             raise Unsupported("nested comprehension")
         g = n.generators[0]
@@ -546,6 +548,41 @@ class LoopMixin:
         if kind == "list":
             return self.materialize(gv, st)
         return gv
+
+    def merged_atts_comprehension(self, n, st):
+        """{k: v for run in RUNS for (k, v) in run.atts.items()}: the attribute dicts of the runs merged in order (a later run's
+        value wins).  Modelled per attribute key by a witness: the merged value, if present, is the value of the LAST run that has
+        the key; a key some run has is present."""
+        g1, g2 = n.generators
+        ok = (not g1.ifs and not g2.ifs and isinstance(g1.target, ast.Name) and isinstance(g2.target, ast.Tuple) and len(g2.target.elts) == 2
+              and all(isinstance(e, ast.Name) for e in g2.target.elts)
+              and isinstance(n.key, ast.Name) and n.key.id == g2.target.elts[0].id
+              and isinstance(n.value, ast.Name) and n.value.id == g2.target.elts[1].id
+              and isinstance(g2.iter, ast.Call) and isinstance(g2.iter.func, ast.Attribute) and g2.iter.func.attr == "items" and not g2.iter.args
+              and isinstance(g2.iter.func.value, ast.Attribute) and g2.iter.func.value.attr in ("atts", "_atts")
+              and isinstance(g2.iter.func.value.value, ast.Name) and g2.iter.func.value.value.id == g1.target.id)
+        if not ok:
+            raise Unsupported("nested comprehension")
+        src = self.ev(g1.iter, st)
+        if not (isinstance(src, Ref) and isinstance(st.deref(src), ListV)):
+            raise Unsupported("nested comprehension over a non-list")
+        lv = st.deref(src)
+        xs, tag = self.list_term(lv, st, "chunk")
+        if tag != "chunk":
+            raise Unsupported("nested comprehension over a list that does not hold runs")
+        nruns = z3.Length(xs)
+        R = fresh("merged_atts", T.Atts)
+        for i, fld in enumerate(T.ATT_FIELDS):
+            w = fresh(f"last_{T.ATT_KEYS[i]}", T.I)
+            st.fact(z3.Implies(fld(R) != 0, z3.And(w >= 0, w < nruns, fld(T.ChunkS.atts(xs[w])) == fld(R))))
+            st.add_inst(lambda j, fld=fld, w=w: z3.Implies(z3.And(j >= 0, j < nruns, fld(T.ChunkS.atts(xs[j])) != 0),
+                                                          z3.And(fld(R) != 0, z3.Or(j <= w, z3.BoolVal(False)))))
+            st.add_inst(lambda j, fld=fld, w=w: z3.Implies(z3.And(j > w, j < nruns, fld(R) != 0), fld(T.ChunkS.atts(xs[j])) == 0))
+            st.add_index(w)
+            if xs.decl().name() == "DROP_EMPTY":        # the kept run at w is the run DROPJ(base, w) of the unfiltered list
+                st.add_index(T.DROPJ(xs.arg(0), w))
+                st.add_index(T.DROPJ(xs.arg(0), z3.IntVal(0)))
+        return Sym("atts", R)
 
     def rekey_symdict(self, n, g, ref, st, kind):
         """{k + c: v for k, v in d.items()} over a symbolic int-keyed dict: the same entries under shifted keys"""
